@@ -98,26 +98,16 @@ pub fn h_c06_step() {
         let b = pick(&w, "b");
         let ka = kind_code(&w.xot, a);
         let kb = kind_code(&w.xot, b);
-        let b_is_ancestor_or_self_of_a = w.xot.ancestors(a).any(|x| x == b);
-        let a_in_b = w.xot.ancestors(a).any(|x| x == b);
-        let _ = a_in_b;
-        // known defects, by role of the arguments
-        sym::class(
-            "KF-C06-cyclic-move-merges-text-first",
-            (op == 0 || op == 1 || op == 5) && b_is_ancestor_or_self_of_a && (ka == 0 || ka == 1) && (kb == 1 || kb == 2 || kb == 3 || kb == 4),
-        );
-        sym::class(
-            "KF-C06-cyclic-sibling-insert-merges-text-first",
-            (op == 2 || op == 3 || op == 8) && w.xot.parent(a).map(|p| w.xot.ancestors(p).any(|x| x == b)).unwrap_or(false),
-        );
-        sym::class("KF-C06-replace-not-atomic", op == 4);
+        sym::emit_u64("op2", op as u64);
+        sym::emit_u64("ka", ka as u64);
+        sym::emit_u64("kb", kb as u64);
         refused = apply2(&mut w, op, a, b).is_err();
     } else {
         let op = sym::choose("op", OPS1);
         let a = pick(&w, "a");
         let ka = kind_code(&w.xot, a);
-        sym::class("KF-C06-element-wrap-detaches-before-refusing", op == 2 && (ka == 5 || ka == 6));
-        sym::class("KF-C06-create-missing-prefixes-panics-without-element", op == 10 && ka != 1);
+        sym::emit_u64("op1", op as u64);
+        sym::emit_u64("ka", ka as u64);
         refused = apply1(&mut w, op, a).is_err();
     }
     if refused {
